@@ -3,7 +3,7 @@ canonicalisation of suspended states (so that equal abstract states are recognis
 generic exploration loop over cut points."""
 from . import iset
 from .absint import (Agg, Conc, Expr, FnItem, Obj, Ref, State, Str, Sym, Top, Undecided, Uninit, V)
-from .summ import AVec, LogVec, Ordlen, Ordv
+from .summ import AIter, AVec, LogVec, Ordlen, Ordv
 
 
 # ---------------------------------------------------------------------------------------------
@@ -214,6 +214,8 @@ class Canon:
                     elif isinstance(m, LogVec):
                         for _, cid in m.cells:
                             work.append(Obj(cid))
+                    elif isinstance(m, AIter):
+                        work.append(Obj(m.vec))
             elif isinstance(v, Ordv):
                 if isinstance(v.space, tuple) and v.space[0] == "len":
                     work.append(Obj(v.space[1]))
